@@ -3,6 +3,7 @@ package main
 import (
 	"fmt"
 	"math/big"
+	"strconv"
 	"strings"
 	"sync"
 	"time"
@@ -640,7 +641,56 @@ func init() {
 	groups["C13"] = genC13
 	groups["C15"] = genC15
 	replayers["rat"] = func(e *emitter, a []string) error {
-		return fmt.Errorf("rat replay: re-run the group")
+		if len(a) != 4 {
+			return fmt.Errorf("rat: want 4 args")
+		}
+		v := atoi(strings.TrimPrefix(a[0], "v"))
+		num, den, k := bigOf(a[1]), bigOf(a[2]), atoi(a[3])
+		nn := newRat(v, num, den)
+		res := ""
+		if nn.IsZero() {
+			d, _ := nn.firstDigits(3)
+			res = fmt.Sprintf("zero exp=%d digits=%q at0=%d", nn.Exponent(), d, nn.At(0))
+		} else {
+			ds, ended := nn.firstDigits(k)
+			en := 0
+			if ended {
+				en = 1
+			}
+			if ds == "" {
+				ds = "-"
+			}
+			res = fmt.Sprintf("%d %s %d", nn.Exponent(), ds, en)
+		}
+		e.line("rat", strings.Join(a, " "), res)
+		return nil
+	}
+	replayers["conc"] = func(e *emitter, a []string) error {
+		if len(a) != 3 {
+			return fmt.Errorf("conc: want 3 args")
+		}
+		v := atoi(strings.TrimPrefix(a[0], "v"))
+		res := guarded(30*time.Second, func() string { return runConc(v, a[1], strings.Split(a[2], "|")) })
+		if res == "hang" {
+			res = "!!hang"
+		}
+		e.line("conc", strings.Join(a, " "), res)
+		return nil
+	}
+	replayers["ctor"] = func(e *emitter, a []string) error {
+		if len(a) != 4 {
+			return fmt.Errorf("ctor: want 4 args")
+		}
+		v := atoi(strings.TrimPrefix(a[0], "v"))
+		x, _ := strconv.ParseInt(a[2], 10, 64)
+		y, _ := strconv.ParseInt(a[3], 10, 64)
+		e.line("ctor", strings.Join(a, " "), runCtor(v, a[1], x, y))
+		return nil
+	}
+	replayers["zv"] = func(e *emitter, a []string) error {
+		v := atoi(strings.TrimPrefix(a[0], "v"))
+		e.line("zv", a[0], runZeroValues(v))
+		return nil
 	}
 }
 
